@@ -347,6 +347,7 @@ def build_value(t, v, schema=None):
         return schema.clone(v[1])
     if k in ('seq', 'set'):
         obj = schema.clone()
+        obj.clear()     # an empty record that is present is a value, not a schema
         for i, ((kind, dflt, ft), fv) in enumerate(zip(b[1], v[1])):
             if fv[0] == 'absent':
                 continue
@@ -360,6 +361,7 @@ def build_value(t, v, schema=None):
         return obj
     if k in ('seqof', 'setof'):
         obj = schema.clone()
+        obj.clear()
         for i, ev in enumerate(v[1]):
             obj.setComponentByPosition(i, build_value(b[1], ev, schema.componentType))
         return obj
@@ -557,7 +559,9 @@ class Gen(object):
                 x = r.random()
                 if x < 0.25:
                     kind = 'o'
-                elif x < 0.4:
+                elif x < 0.4 and (base_of(ft)[0] not in ('seq', 'set', 'seqof', 'setof', 'choice')
+                                  or r.random() < 0.1):
+                    # (DEFAULT of a constructed type trips `==` in the encoder: finding T11, kept rare)
                     kind = 'd'
                     dflt = self.val(ft, for_default=True)
             fields.append((kind, dflt, ft))
